@@ -385,6 +385,9 @@ def step(res, hist, op, L, tier):
             inherited = {(c, g) for c, g, _e, _o in invariant(Result(0), s, case)}
             if reparse_ok(Result(0), s):
                 inherited.add('C09.reparse')
+            # every rule object reachable before the operation (whatever removes it - also implicitly, e.g. a namespace clean-up
+            # or a text replacement - must detach it)
+            objs_before = [(x, None) for x in s.cssRules] + [(x, r) for r in s.cssRules if r.type in (R.MEDIA_RULE, R.PAGE_RULE) for x in r.cssRules]
             removed = None
             if op[0] in ('del', 'delr'):
                 try:
@@ -419,6 +422,18 @@ def step(res, hist, op, L, tier):
             if removed.parentStyleSheet is not None or (op[0] == 'mdel' and removed.parentRule is not None):
                 res.violation('C09.parents', f'removed-rule-still-attached|{op[0]}|{removed.typeString}', case, None,
                               [repr(removed.parentStyleSheet), repr(removed.parentRule)], size=size)
+    if out[0] == 'ok':
+        res.clauses['C09.removed-detached'] += 1
+        top_now = {id(x) for x in s.cssRules}
+        for o, container in objs_before:
+            if container is None:
+                # a rule that is no longer in the sheet's list must not name the sheet (its own children stay its children)
+                if id(o) not in top_now and o.parentStyleSheet is not None:
+                    res.violation('C09.parents', f'rule-left-the-sheet-but-still-names-it|{op[0]}|{o.typeString}', case, None, repr(o.parentStyleSheet)[:80], size=size)
+                    break
+            elif id(o) not in {id(x) for x in container.cssRules} and o.parentRule is not None:
+                res.violation('C09.parents', f'nested-rule-left-its-rule-but-still-names-it|{op[0]}|{o.typeString}', case, None, repr(o.parentRule)[:80], size=size)
+                break
     for clause, sig, exp, obs in invariant(res, s, case):
         if (clause, sig) in inherited:
             res.counters['violations_inherited_from_source_state'] += 1
